@@ -276,6 +276,30 @@ pub fn run_seq(h: &[Inst], via_binary: bool) -> Step {
         Ok((Some((class, what)), _)) => viols.push(viol(format!("C05:{}", class), what, rep.clone())),
         Ok((None, k)) => key = k,
     }
+    // the other way to obtain a Loader: Loader::default() must behave exactly like Loader::new()
+    if viols.is_empty() {
+        let drive = |mut l: dr::Loader| -> (Vec<Result<(), String>>, crate::bsys::Snap) {
+            let mut answers = vec![action_name(l.initialize())];
+            for i in h {
+                let a = action_name(l.consume_instruction(model::to_dr(i).unwrap()));
+                let stop = a.is_err();
+                answers.push(a);
+                if stop {
+                    break;
+                }
+            }
+            answers.push(action_name(l.finalize()));
+            (answers, snap(&l.module()))
+        };
+        match guarded(|| (drive(dr::Loader::new()), drive(dr::Loader::default()))) {
+            Err(p) => viols.push(viol(format!("C05:panic@{}", crate::report::panic_class(&p)), format!("sequence [{}] through Loader::default() panics: {}", hist_str(h), p), rep.clone())),
+            Ok((a, b)) => {
+                if a != b {
+                    viols.push(viol("C05:entry-point:Loader::default", format!("sequence [{}]: Loader::default() answers {:?} / module {} ; Loader::new() answers {:?} / module {}", hist_str(h), b.0, b.1.brief(), a.0, a.1.brief()), rep.clone()));
+                }
+            }
+        }
+    }
     // the same history through the whole pipeline: reference-encoded binary -> load_words
     if via_binary && viols.is_empty() {
         let mut words = model::header(0x0001_0000, 0, 1000);
@@ -292,6 +316,20 @@ pub fn run_seq(h: &[Inst], via_binary: bool) -> Step {
         }
         if exp == Expect::Ok {
             exp = m.end_of_stream();
+        }
+        // load_bytes is the same function on the same words
+        {
+            let bytes = model::words_to_bytes(&words);
+            let show = |r: Result<dr::Module, ParseState>| match r {
+                Ok(m) => format!("Ok {}", snap(&m).brief()),
+                Err(ParseState::ConsumerError(e)) => format!("Err {}", e.downcast_ref::<dr::Error>().map(dr_error_name).unwrap_or("foreign")),
+                Err(e) => format!("Err {}", crate::util::state_name(&e)),
+            };
+            if let Ok((a, b)) = guarded(|| (show(dr::load_words(&words)), show(dr::load_bytes(&bytes)))) {
+                if a != b {
+                    viols.push(viol("C05:entry-point:load_bytes", format!("[{}]: load_words gives {} ; load_bytes gives {}", hist_str(h), a, b), rep.clone()));
+                }
+            }
         }
         match guarded(|| dr::load_words(&words)) {
             Err(p) => viols.push(viol(format!("C05:panic@{}", crate::report::panic_class(&p)), format!("load_words of [{}] panics: {}", hist_str(h), p), rep.clone())),
